@@ -46,6 +46,12 @@ static RefOut ref_lz4(const uint8_t *in, size_t n_in, uint8_t *out, size_t cap) 
 
 VH_ENTRY vh_lz4() {
   uint8_t *in = vh_bytes(IN);
+#ifdef TOK0      /* "shaped" queries: the token bytes (sequence lengths) are given by the query, offsets and all data bytes stay arbitrary - */
+  in[0] = TOK0;  /* reaches blocks longer than the all-symbolic bound (word copies near the end of the output need >= 9 literals first) */
+#ifdef TOK1
+  in[1 + (TOK0 >> 4) + 2] = TOK1;
+#endif
+#endif
   uint8_t *out = (uint8_t *)malloc(OUT);
   uint8_t *refout = (uint8_t *)malloc(OUT);
   ASSUME(out != 0 && refout != 0);
@@ -59,7 +65,8 @@ VH_ENTRY vh_lz4() {
   }
   // completeness ('transparent'): a block that is valid by the LZ4 end-of-block rules, fills the announced size exactly
   // and is shorter than its plaintext must be accepted
-  if (ref.n == (int)OUT && ref.endrules && IN < OUT)
+  // (blocks shorter than the decoder's MINSRCSIZE of 13 bytes are rejected by design of read_sequence: outside the claim, DESIGN 9.3)
+  if (ref.n == (int)OUT && ref.endrules && IN < OUT && IN >= 13)
     ASSERT(n == (int)OUT, "valid shrinking LZ4 block is accepted");
   free(in); free(out); free(refout);
   VH_END();
